@@ -203,11 +203,6 @@ def pipeline(now: int, cut: int, sched: List[int]) -> bool:
     cut = split_cases(2, cut)
     chunks, completes = CUTS[cut]
     nowl = [bool(now & 1), bool(now & 2), bool(now & 4)]
-    ops = []
-    for i in range(B['n']):
-        if i >= len(sched):
-            break
-        ops.append(split_cases(5, sched[i]))
     # ---- the real code under the schedule ---------------------------------------------------------
     ch = L.HTTPChannel()
     ch.requestFactory = ScriptedRequest
@@ -220,9 +215,14 @@ def pipeline(now: int, cut: int, sched: List[int]) -> bool:
     nchunk = 0
     lost = False
     asked_pause = False
-    for op in ops:
+    ops = []
+    for k in range(B['n']):
+        if k >= len(sched):
+            break
         if lost:
             return True                                   # not a legal history: nothing happens after the loss
+        op = split_cases(5, sched[k])                     # (decided only now: an illegal step prunes the rest)
+        ops.append(op)
         if op == OP_DELIVER:
             if nchunk >= len(chunks) or tr.paused:
                 return True                               # nothing to deliver / transport not reading
@@ -251,6 +251,8 @@ def pipeline(now: int, cut: int, sched: List[int]) -> bool:
         # the real code accepted an operation the specification has no state for, e.g. finishing a
         # request that should not be in application hands yet
         return False
+    if tr.paused and not asked_pause and not lost:
+        return False                                      # reading stays switched off although nobody asked for it
     got_ev, got_nf = _project(ev)
     return got_ev == exp_ev and got_nf == exp_nf and tr.value() == exp_wire and not tr.closed
 
